@@ -149,6 +149,8 @@ func c14(c *Ctx) (*report.Result, error) {
 	res.Assumptions = []string{"a search-attribute container is *common.SearchAttributes or a map[string]*common.Payload whose field name mentions search attributes (the two forms the property names)"}
 	res.RuleDoc["O14.7"] = "translation, access control and repair keep no memory between messages: no shipped function of the interceptor, proto/compat, auth and collect packages stores into package-level state, receiver fields or sync.Maps after construction - a cache keyed by message type or content makes the treatment of one message depend on the ones before it"
 	checkStateless(c, res, "O14.7", []string{"interceptor", "proto/compat", "auth", "collect"}, map[string]string{})
+	res.RuleDoc["O14.8"] = "no swallowed error in the files the mechanism lives in: no function returns a nil error on a path on which an error obtained from a call is known to be non-nil (io.EOF from a stream Recv, the normal end of a receive loop, is the one accepted idiom)"
+	checkNoSwallowedErrors(c, res, "O14.8", []string{"interceptor/search_attribute_translator.go", "interceptor/reflection.go", "interceptor/translation_interceptor.go"})
 	return res, nil
 }
 
